@@ -9,13 +9,21 @@ def run(tier):
     if c.quick():
         jobs = [("kv6-q", kv.consts(pats="Pats2", invals=("x",), exps=("none", "s1", "s3"), maxnow=4))]
     else:
-        jobs = [("kv6-t", kv.consts(pats="Pats5", invals=("empty", "x"), exps=("none", "s1", "s3", "long"), maxnow=4)),
+        jobs = [("kv6-t", kv.consts(pats="Pats5", invals=("empty", "x"), exps=("none", "s1", "s3", "far", "past"), maxnow=4)),
                 ("kv6-t3", kv.consts(keys="Keys3", pats="Pats2", invals=("x",), exps=("none", "s1", "s3"), maxnow=4, many=2))]
     emits = parallel([lambda n=n, cs=cs: kv.emit(c, n, cs, workers=6, timeout=1500) for n, cs in jobs], max_workers=3)
     c.exhaustive = True
     for e in emits:
         c.replay("kv", e, variant="inmem", extra={"tick_ms": 30}, timeout=2400, workers=400)
         c.replay("kv", e, variant="redis", timeout=2400)
+    # records that "never" expire (year 9999, beyond a 64-bit nanosecond count) must survive time passing
+    efar = kv.emit(c, "kv6-far", kv.consts(pats="Pats2", invals=("x",), exps=("none", "far", "past"), maxnow=2), workers=6)
+    c.replay("kv", efar, variant="inmem", extra={"tick_ms": 30}, timeout=2400, workers=400)
+    c.replay("kv", efar, variant="redis", timeout=2400)
+    # fine-grained time on Redis (virtual clock, 100 ms ticks): a record due in 2.3 s must be readable at 2.2 s and gone at
+    # 2.4 s, one due in 2.7 s readable at 2.6 s and gone at 2.8 s, whoever wrote it
+    ef = kv.emit(c, "kv6-fine", kv.consts(keys="Keys1", pats="Pats2", invals=("x",), exps=("f23", "f27"), maxnow=30, many=1), workers=6)
+    c.replay("kv", ef, variant="redis", extra={"redis_tick_ms": 100}, timeout=2400)
     expiry_race(c)
     c.assumptions += ["in-memory backend: real clock, 30 ms ticks; calls run at even ticks, expirations sit at odd ticks; a behaviour during "
                       "which the host stalled past its window is re-run with a doubled tick and, after 3 attempts, not judged",
